@@ -93,17 +93,30 @@ def tree_sorted(t):
     return t
 
 
-def build_tree(t, AND=None, OR=None):
-    """canonical tree -> real expression objects"""
+class UserLicense:
+    """an arbitrary user object exposing key / is_exception (wrapped by LicenseSymbolLike)"""
+
+    def __init__(self, key, is_exception=False):
+        self.key, self.is_exception = key, is_exception
+
+
+def make_sym(key, exc, rng=None):
+    """a plain symbol, or (with `rng`, one time in three) a wrapper around a user object with the same key and flag"""
+    if rng is not None and rng.random() < 0.33:
+        return le.LicenseSymbolLike(UserLicense(key, exc))
+    return le.LicenseSymbol(key, is_exception=exc)
+
+
+def build_tree(t, AND=None, OR=None, rng=None):
+    """canonical tree -> real expression objects; with `rng` some symbols are wrappers around user objects"""
     AND = AND or le.AND
     OR = OR or le.OR
     tag = t[0]
     if tag == 'sym':
-        return le.LicenseSymbol(t[1], is_exception=t[2])
+        return make_sym(t[1], t[2], rng)
     if tag == 'with':
-        return le.LicenseWithExceptionSymbol(
-            le.LicenseSymbol(t[1], is_exception=t[2]), le.LicenseSymbol(t[3], is_exception=t[4]))
-    args = [build_tree(x, AND, OR) for x in t[1:]]
+        return le.LicenseWithExceptionSymbol(make_sym(t[1], t[2], rng), make_sym(t[3], t[4], rng))
+    args = [build_tree(x, AND, OR, rng) for x in t[1:]]
     return (AND if tag == 'and' else OR)(*args)
 
 
